@@ -258,6 +258,12 @@ fn check_all_dropped(n: usize) {
     fail(state::allocated_bytes().unwrap() == 0, "C02::allocated_bytes_zero_when_nothing_remains");
 }
 fn check_quiescent() { let fd0 = (g().n_fin, g().n_drop); collect_cycles(); fail((g().n_fin, g().n_drop) == fd0, "C02::collection_reached_fixpoint"); }
+fn check_usable() {
+    let c = Cc::new(Leaf(1));
+    #[cfg(feature = "finalization")]
+    fail(!c.already_finalized(), "C07::after_the_caught_panic_new_objects_are_not_marked_finalized");
+    fail(c.try_unwrap().is_ok(), "C07::after_the_caught_panic_try_unwrap_of_a_fresh_unique_pointer_succeeds");
+}
 fn check_execs(expect: usize) { fail(execs() == expect, "C11::executions_count_plus_one_per_collection"); }
 fn check_later_collection(expect: usize) { fail(execs() == expect, "C07::later_collection_can_start"); }
 /// run an API call the way a program that catches panics would; returns whether it panicked
